@@ -25,6 +25,7 @@ import (
 
 	utiltx "github.com/haqq-network/haqq/testutil/tx"
 	haqqtypes "github.com/haqq-network/haqq/types"
+	"github.com/haqq-network/haqq/ethereum/eip712"
 	evmtypes "github.com/haqq-network/haqq/x/evm/types"
 )
 
@@ -92,7 +93,7 @@ func c03Gen(r *rand.Rand, tier string) []Case {
 	}
 	var out []Case
 	// every post-signing change on every route once, next to an untouched transaction of the same route
-	for _, route := range []string{"cos", "e712", "e712l"} {
+	for _, route := range []string{"cos", "e712", "e712l", "e712a"} {
 		c := Case{fmt.Sprintf("%s ? ? ? ? # k=1 signseq=0 chain=ok mutate=none", route)}
 		for _, mut := range []string{"memo", "amount", "fee", "gas", "to", "timeout", "extopt", "granter"} {
 			c = append(c, fmt.Sprintf("%s ? ? ? ? # k=1 signseq=0 chain=ok mutate=%s", route, mut))
@@ -134,7 +135,7 @@ func c03Gen(r *rand.Rand, tier string) []Case {
 				c = append(c, fmt.Sprintf("mut # k=%d type=%s field=%s", k, pick(r, []string{"legacy", "access", "dynamic"}),
 					pick(r, []string{"nonce", "price", "tip", "gas", "to", "value", "data", "accesslist", "chainid", "v", "r", "s", "foreignchain"})))
 			case x < 16:
-				route := pick(r, []string{"cos", "cos", "e712", "e712l"})
+				route := pick(r, []string{"cos", "cos", "e712", "e712l", "e712a"})
 				mut := pick(r, []string{"none", "none", "none", "memo", "amount", "fee", "gas", "to", "timeout", "extopt", "granter"})
 				seq := pick(r, []string{"0", "0", "0", "1", "-1"})
 				chain := pick(r, []string{"ok", "ok", "ok", "other"})
@@ -302,7 +303,7 @@ func c03Exec(c Case) (outs []string, fails []Failure, tags []string) {
 					out = fmt.Sprintf("reject %d", now)
 					tags = append(tags, "eth-reject")
 				}
-			case "cos", "e712", "e712l":
+			case "cos", "e712", "e712l", "e712a":
 				key := kr.GetKey(k)
 				to := kr.GetKey(1 + (k % 3)).AccAddr
 				route := f[0]
@@ -363,6 +364,32 @@ func c03Exec(c Case) (outs []string, fails []Failure, tags []string) {
 							panic(err)
 						}
 						_ = builder.SetSignatures(sig)
+					} else if route == "e712a" {
+						// amino-JSON sign mode with an EIP-712 signature in the signature field: the verifier rebuilds the typed
+						// data from the amino sign document (ethereum/eip712 decodeAminoSignDoc)
+						txSeq = seq
+						builder = txCfg.NewTxBuilder()
+						_ = builder.SetMsgs(msg)
+						builder.SetGasLimit(gasLimit)
+						builder.SetFeeAmount(fees)
+						acc := app.AccountKeeper.GetAccount(nw.GetContext(), key.AccAddr)
+						sigV2 := signing.SignatureV2{PubKey: key.Priv.PubKey(), Data: &signing.SingleSignatureData{SignMode: signing.SignMode_SIGN_MODE_LEGACY_AMINO_JSON}, Sequence: txSeq}
+						_ = builder.SetSignatures(sigV2)
+						sd := authsigning.SignerData{Address: key.AccAddr.String(), ChainID: signChain, AccountNumber: acc.GetAccountNumber(), Sequence: txSeq, PubKey: key.Priv.PubKey()}
+						signBytes, err := txCfg.SignModeHandler().GetSignBytes(signing.SignMode_SIGN_MODE_LEGACY_AMINO_JSON, sd, builder.GetTx())
+						if err != nil {
+							panic(err)
+						}
+						eipBytes, err := eip712.GetEIP712BytesForMsg(signBytes)
+						if err != nil {
+							panic(err)
+						}
+						sigBz, err := key.Priv.Sign(eipBytes)
+						if err != nil {
+							panic(err)
+						}
+						sigV2.Data = &signing.SingleSignatureData{SignMode: signing.SignMode_SIGN_MODE_LEGACY_AMINO_JSON, Signature: sigBz}
+						_ = builder.SetSignatures(sigV2)
 					} else {
 						txSeq = seq
 						var err error
